@@ -173,14 +173,20 @@ class TFilteredParams(T):
     def make(self, ctx, path):
         kinds = ctx.var.choice(path, ["es256"])
         ents = []
-        for k in kinds:
+        for idx, k in enumerate(kinds):
             if k in ("es256", "eddsa"):
                 ents.append(Leaf(kind=k, alg=-7 if k == "es256" else -8, ty=list(b"public-key"), var=None))
             elif k == "unkalg":
-                cls, major = ctx.var.choice(path + "#unk", (2, 1))
-                lo, hi = C.CLASS_RANGE[cls]
-                var = ctx.h.sym_uint(lo, min(hi, 0x7FFFFFFF))
-                ents.append(Leaf(kind=k, var=var, cls=cls, major=major, ty=list(b"public-key")))
+                if idx == len(kinds) - 1:
+                    # symbolic over a whole head class -- only as the LAST entry: a symbolic integer
+                    # followed by further items makes CBMC lose the decoder position (DESIGN.md section 2)
+                    cls, major = ctx.var.choice(path + "#unk", (2, 1))
+                    lo, hi = C.CLASS_RANGE[cls]
+                    var = ctx.h.sym_uint(lo, min(hi, 0x7FFFFFFF))
+                    ents.append(Leaf(kind=k, var=var, cls=cls, major=major, ty=list(b"public-key")))
+                else:
+                    alg = [-257, -37, -65535, 1, -9, 24, -25, 0x7FFFFFFF, -0x80000000][(idx + ctx.var.seed) % 9]
+                    ents.append(Leaf(kind=k, alg=alg, ty=list(b"public-key"), var=None))
             elif k == "unktype":
                 tv, tex = ctx.h.sym_text(10, ctx.var.text)
                 ctx.h.decl.append('kani::assume(!eq(&%s, b"public-key"));' % tv)
